@@ -478,11 +478,57 @@ struct Op
   long t = 0, rid = -1, buf = -1;
   bool enabled = true;
   std::string target;
+  std::string via;  // `new:<via>`: which convenience entry point of logs::Logger emits the record
   trace_api::TraceId tid;
   trace_api::SpanId sid;
   trace_api::TraceFlags fl;
   std::vector<Arg> args;
 };
+
+// one non-severity argument (or none) for the variadic wrappers Trace(...) … Fatal(...)
+template <class F>
+static void dispatch1(F &&call, std::vector<Arg> &args, size_t i)
+{
+  if (i == args.size())
+  {
+    call();
+    return;
+  }
+  Arg &a = args[i];
+  switch (a.kind)
+  {
+    case K_SEV: break;
+    case K_EID: call(*a.eid); break;
+    case K_CTX: call(a.ctx); break;
+    case K_SID: call(a.sid); break;
+    case K_TID: call(a.tid); break;
+    case K_FL: call(a.fl); break;
+    case K_TS: call(a.ts); break;
+    case K_TP: call(a.tp); break;
+    case K_ATTRS: call(std::move(*a.cell->attrs)); break;
+    case K_ATTRSV: call(*a.cell->pairs); break;
+    case K_BODY:
+    {
+      common::AttributeValue v = a.cell->val->get();
+      call(v);
+      break;
+    }
+    case K_BODYSV: call(nostd::string_view(a.cell->val->str->data(), a.cell->val->str->size())); break;
+    case K_BODYCS: call(a.cell->val->cstr.get()); break;
+    case K_BODYSTD: call(*a.cell->str); break;
+  }
+}
+
+#define BY_SEVERITY(sev, CALL)                        \
+  switch (static_cast<int>(sev))                      \
+  {                                                   \
+    case 1: lg->Trace CALL; break;                    \
+    case 5: lg->Debug CALL; break;                    \
+    case 9: lg->Info CALL; break;                     \
+    case 13: lg->Warn CALL; break;                    \
+    case 17: lg->Error CALL; break;                   \
+    default: lg->Fatal CALL; break;                   \
+  }
 
 static bool parse_op(const std::vector<std::string> &t, Op &op)
 {
@@ -502,17 +548,48 @@ static bool parse_op(const std::vector<std::string> &t, Op &op)
     op.args.emplace_back();
     return parse_small(t[1], 100000, op.rid) && parse_arg(t[2], op.args[0]);
   }
-  if (op.kind == "emit" && t.size() >= 4 && t.size() <= 4 + MAX_ARGS)
+  if (op.kind == "emit" && t.size() >= 4 && t.size() <= 4 + 4)
   {
     if (!parse_small(t[1], 3, op.t)) return false;
     if (t[2] != "e" && t[2] != "d") return false;
     op.enabled = t[2] == "e";
     op.target  = t[3];
+    if (op.target.compare(0, 4, "new:") == 0)
+    {
+      op.via    = op.target.substr(4);
+      op.target = "new";
+    }
+    if (op.via.empty() && t.size() > 4 + MAX_ARGS) return false;
     if (op.target != "new" && op.target != "null" && !parse_small(op.target, 100000, op.rid)) return false;
     for (size_t i = 4; i < t.size(); i++)
     {
       op.args.emplace_back();
       if (!parse_arg(t[i], op.args.back())) return false;
+    }
+    if (!op.via.empty())
+    {
+      // the shapes the convenience entry points take: severity first, then exactly their parameters
+      auto is6 = [](logs_api::Severity s) {
+        auto v = static_cast<int>(s);
+        return v == 1 || v == 5 || v == 9 || v == 13 || v == 17 || v == 21;
+      };
+      auto kinds = [&](std::initializer_list<int> ks) {
+        if (op.args.size() != ks.size()) return false;
+        size_t i = 0;
+        for (int k : ks)
+          if (op.args[i++].kind != k) return false;
+        return true;
+      };
+      const std::string &v = op.via;
+      if (op.args.empty() || op.args[0].kind != K_SEV) return false;
+      bool wrapper = v == "v" || v[0] == 'w';
+      if (wrapper && !is6(op.args[0].sev)) return false;
+      if (v == "v") return op.args.size() <= 2 && (op.args.size() == 1 || op.args[1].kind != K_SEV);
+      if (v == "l4e" || v == "w4e") return kinds({K_SEV, K_EID, K_BODYSV, K_ATTRS});
+      if (v == "l4i" || v == "w4i") return kinds({K_SEV, K_EID, K_BODYSV, K_ATTRS}) && op.args[1].eid->name_ == nullptr;
+      if (v == "l3" || v == "w3") return kinds({K_SEV, K_BODYSV, K_ATTRS});
+      if (v == "l2" || v == "w2") return kinds({K_SEV, K_BODYSV});
+      return false;
     }
     return true;
   }
@@ -657,7 +734,29 @@ static std::string handle(const std::vector<std::string> &toks)
         if (op.target == "new")
         {
           logs_api::Logger *lg = (op.enabled ? on : off).get();
-          dispatch([&](auto &&...a) { lg->EmitLogRecord(std::forward<decltype(a)>(a)...); }, op.args, 0);
+          if (op.via.empty())
+            dispatch([&](auto &&...a) { lg->EmitLogRecord(std::forward<decltype(a)>(a)...); }, op.args, 0);
+          else
+          {
+            // the convenience entry points: they must emit exactly what EmitLogRecord(severity, …) would
+            const logs_api::Severity sev = op.args[0].sev;
+            auto sv = [&](size_t i) {
+              auto &c = *op.args[i].cell->val;
+              return nostd::string_view(c.str->data(), c.str->size());
+            };
+            auto at = [&](size_t i) -> const common::KeyValueIterable & { return *op.args[i].cell->attrs; };
+            const std::string &v = op.via;
+            if (v == "v")
+              dispatch1([&](auto &&...a) { BY_SEVERITY(sev, (std::forward<decltype(a)>(a)...)) }, op.args, 1);
+            else if (v == "l4e") lg->Log(sev, *op.args[1].eid, sv(2), at(3));
+            else if (v == "l4i") lg->Log(sev, op.args[1].eid->id_, sv(2), at(3));
+            else if (v == "l3") lg->Log(sev, sv(1), at(2));
+            else if (v == "l2") lg->Log(sev, sv(1));
+            else if (v == "w4e") { BY_SEVERITY(sev, (*op.args[1].eid, sv(2), at(3))) }
+            else if (v == "w4i") { BY_SEVERITY(sev, (op.args[1].eid->id_, sv(2), at(3))) }
+            else if (v == "w3") { BY_SEVERITY(sev, (sv(1), at(2))) }
+            else { BY_SEVERITY(sev, (sv(1))) }
+          }
         }
         else
         {
